@@ -4,6 +4,8 @@ Model: HypnoModel/Model/Profiles.lean (hand-written; tied to mesh.py / tokamak.p
 grid-level oracle). The field formulas Brxy, Bzxy, Btxy themselves are part of the generated Gen/Fields.lean (C18).
 -/
 import HypnoModel.Model.Profiles
+import HypnoModel.Gen.Geom1
+import HypnoModel.Gen.Fields
 import Mathlib.Analysis.SpecialFunctions.ExpDeriv
 import Mathlib.Tactic.Linarith
 import Mathlib.Tactic.Ring
@@ -98,5 +100,44 @@ theorem extrapolation_absolute_psi_discontinuous :
 
 example : bpDecision (-0.3 : ℝ) (-1) = .ok (-1) := by unfold bpDecision; norm_num
 example : reflect (fun x => |x|) (1 : ℝ) (-1) 2 = 0 := by unfold reflect; norm_num
+
+
+/-! ## the field magnitudes assigned in geometry1 (formulas regenerated from the source: Gen/Geom1.lean) -/
+section geometry1
+open Gen.R.Geom1
+
+/-- |Bpxy| = sqrt(Brxy² + Bzxy²): non-negative, and its square is the sum of squares -/
+theorem Bpxy_sq (Br Bz : ℝ) : Bpxy Br Bz ^ 2 = Br ^ 2 + Bz ^ 2 := by
+  unfold Bpxy; exact Real.sq_sqrt (by positivity)
+
+theorem Bpxy_nonneg (Br Bz : ℝ) : 0 ≤ Bpxy Br Bz := by unfold Bpxy; exact Real.sqrt_nonneg _
+
+/-- with Brxy = (∂ψ/∂Z)/R and Bzxy = −(∂ψ/∂R)/R (the generated Bp_R, Bp_Z of the Equilibrium, C18): |Bp| = |∇ψ| / |R| -/
+theorem Bpxy_eq_gradpsi_over_R (pR pZ R : ℝ) (hR : R ≠ 0) :
+    Bpxy (pZ / R) (-pR / R) = Real.sqrt (pR ^ 2 + pZ ^ 2) / |R| := by
+  unfold Bpxy
+  have h : (pZ / R) ^ 2 + (-pR / R) ^ 2 = (pR ^ 2 + pZ ^ 2) / R ^ 2 := by field_simp; ring
+  rw [h, Real.sqrt_div (by positivity), Real.sqrt_sq_eq_abs]
+
+/-- Btxy = fpol(ψ)/R -/
+theorem Btxy_eq (R f : ℝ) : Btxy R f = f / R := by unfold Btxy; ring
+
+/-- Bxy = sqrt(Bpxy² + Btxy²): the same for either sign given to Bpxy, never smaller than |Bpxy| or |Btxy| -/
+theorem Bxy_sq (Bp Bt : ℝ) : Bxy Bp Bt ^ 2 = Bp ^ 2 + Bt ^ 2 := by
+  unfold Bxy; exact Real.sq_sqrt (by positivity)
+
+theorem Bxy_sign_independent (Bp Bt : ℝ) : Bxy (-Bp) Bt = Bxy Bp Bt ∧ Bxy Bp (-Bt) = Bxy Bp Bt := by
+  unfold Bxy; constructor <;> congr 1 <;> ring
+
+theorem Bxy_ge (Bp Bt : ℝ) : |Bp| ≤ Bxy Bp Bt ∧ |Bt| ≤ Bxy Bp Bt := by
+  unfold Bxy
+  constructor
+  · rw [← Real.sqrt_sq_eq_abs]; exact Real.sqrt_le_sqrt (by nlinarith [sq_nonneg Bt])
+  · rw [← Real.sqrt_sq_eq_abs]; exact Real.sqrt_le_sqrt (by nlinarith [sq_nonneg Bp])
+
+example : Bxy 3 4 = 5 := by
+  unfold Bxy; rw [show ((3 : ℝ) ^ 2 + 4 ^ 2) = 5 ^ 2 by norm_num]; exact Real.sqrt_sq (by norm_num)
+
+end geometry1
 
 end HypnoModel.Props.C03
